@@ -2,7 +2,7 @@
     list-encoded operands.  Evaluated inside Coq (vm_compute) and, for volume,
     through extraction (Extract.v). *)
 From Coq Require Import ZArith List.
-From FastorV Require Import Base.Scalar Base.Mem Model.Cfg Model.Matmul Model.TMatmul Model.Expr Model.ExprInt Model.Reduce.
+From FastorV Require Import Base.Scalar Base.Mem Model.Cfg Model.Matmul Model.TMatmul Model.Expr Model.ExprInt Model.Reduce Base.Shape Model.Views.
 Import ListNotations.
 
 Definition run_matmul_Z (c : cfg) (t : ety) (M K N : nat) (a b : list Z) : list Z :=
@@ -34,3 +34,16 @@ Definition run_preds (data : list bool) : list bool :=
 Definition run_det_Z (n : nat) (a : list Z) : Z :=
   let f := fun i => nth i a 0%Z in
   match n with 2 => det2 f | 3 => det3 f | 4 => det4 f | _ => det_spec n f end.
+
+(** C04/C05/C18: a view given by the raw user ranges; [oned] selects the 1-D normalisation.
+    Returns (extent per axis, parent offset of every view element in row-major view order). *)
+Definition run_view (oned : bool) (pdims : list nat) (rs : list (Z * Z * Z)) : list nat * list nat :=
+  let v := map (fun dr : nat * (Z * Z * Z) =>
+                  let '(d, (f, l, s)) := dr in
+                  to_nrange ((if oned then norm1d else normnd) (Z.of_nat d) (mkU f l s))) (combine pdims rs) in
+  (vdims v, map (view_off pdims v) (seq 0 (prod (vdims v)))).
+(* is the normalised range admissible for extent d (what the property quantifies over) *)
+Definition run_admissible (oned : bool) (d : nat) (r : Z * Z * Z) : bool :=
+  let '(f, l, s) := r in
+  let u := (if oned then norm1d else normnd) (Z.of_nat d) (mkU f l s) in
+  (0 <=? uf u)%Z && (uf u <=? ul u)%Z && (ul u <=? Z.of_nat d)%Z && (1 <=? us u)%Z && (uf u <? Z.of_nat d)%Z.
